@@ -27,6 +27,9 @@ def run(pid, argv, want=None):
     # names, valued release), requires ports whose semantics alternate in declaration order, an injected port
     from checks.c11 import fixed_cases
     cases += fixed_cases() + SR.mixed_semantics_cases(('MSM', 'SMS')) + SR.prefix_name_cases()[:1 if tier == 'quick' else 3]
+    suspects, breadth = SR.leg_a_suspects(rng, 100 if tier == 'quick' else 1500, want=want)
+    rep.extra['cases_compared_with_the_model_only'] = breadth
+    cases += suspects
     io, mo, plans = SR.tie_and_plans(cases)
     wd = legb.Workdir()
     nv = 0
